@@ -147,6 +147,8 @@ PROPS["C09"] = {
         leg("bq-neg-try", "c09_queue", (2, 2), {"prog": "Q|G,T5|P1", "bounded": 1, "cap": 1}, what="blocked pop outstanding while try ops run"),
         leg("bq-abort", "c09_queue", (1, 2), {"prog": "Q|Q|P7|A", "bounded": 1, "cap": 4}, what="abort wakes blocked pops without losing the pushed item", weight=1.5),
         leg("bq-abort-push", "c09_queue", (1, 2), {"prog": "P1,P2|A|G", "bounded": 1, "cap": 1, "keep": 0}, what="abort wakes a blocked push"),
+        leg("bq-abort-again", "c09_queue", (2, 3), {"prog": "Q,Q|a,P1,P2", "bounded": 1, "cap": 4}, what="a thread is aborted in pop(), blocks in pop() again and is served by a regular push: the second call must not report user_abort"),
+        leg("bq-abort-again-push", "c09_queue", (2, 2), {"prog": "P1,P2,P3|a,Q,Q", "bounded": 1, "cap": 1, "keep": 0}, what="same for a blocked push: aborted once, the retried push blocks again and must complete normally when a pop frees the slot"),
         leg("bq-setcap", "c09_queue", (2, 2), {"prog": "P1,P2|C2,G", "bounded": 1, "cap": 1}, what="capacity raised while a push may be blocked"),
         leg("bq-big", "c09_queue", (2, 2), {"prog": "P1,P2|Q,G|T3", "bounded": 1, "cap": 2, "big": 1}, what="bounded queue with one element per page"),
     ] + _c09_sweeps(),
